@@ -268,7 +268,8 @@ class C36(ReachEngine):
             "validated by Trace_Reach.tla.")
     assumptions = ["only placements that are valid Sass are generated (no at-rules inside nested-property blocks, declarations only inside style rules)",
                    "comment text is compared after collapsing whitespace; comments starting with `#` (source-map comments) are not generated",
-                   "comments inside @function bodies are not generated"]
+                   "comments inside @function bodies are not generated",
+                   "only the sequence of comments is compared, not their position relative to declarations"]
     mc_runs = {
         "quick": [("MC_Reach", "MC_Reach_C36_a.cfg", {"workers": 4}), ("MC_Reach", "MC_Reach_C36_b.cfg", {"workers": 4})],
         "thorough": [("MC_Reach", "MC_Reach_C36_a.cfg", {"workers": 4}), ("MC_Reach", "MC_Reach_C36_b.cfg", {"workers": 4}),
